@@ -18,6 +18,7 @@ package c03
 
 import (
 	"context"
+	"crypto"
 	"crypto/x509"
 	"errors"
 	"fmt"
@@ -66,6 +67,7 @@ type Input struct {
 	Repo       string   `json:"repo"`
 	World      []Store  `json:"world"`
 	RefOk      bool     `json:"refOk"`
+	SameKey    [][]int  `json:"sameKey"`
 	IdentityOk bool     `json:"identityOk"`
 	Plugin     string   `json:"plugin"`
 	Backend    string   `json:"backend"`
@@ -97,8 +99,21 @@ const (
 	selfC  = 5 // chain C: a self-signed signing certificate
 	rootU  = 6 // unrelated root CA
 	selfV  = 7 // unrelated self-signed signing certificate
-	nCerts = 8
+	// look-alikes: NOT in any chain, but carrying the public key (and name) of a chain certificate
+	rootA2  = 8  // root A issued again: same name and key, other serial number and validity
+	rootAx  = 9  // cross-certificate: root A's name and key, issued by the unrelated root U
+	rootB2  = 10 // root B issued again
+	interA2 = 11 // intermediate A issued again by root A (same key, other serial)
+	leafA2  = 12 // another certificate for the leaf A key, issued by intermediate A
+	selfC2  = 13 // the self-signed signing certificate C issued again (same key)
+	nCerts  = 14
 )
+
+// sameKeyGroups is what the model is told (and must ignore) about shared keys.
+var sameKeyGroups = [][]int{{rootA, rootA2, rootAx}, {rootB, rootB2}, {interA, interA2}, {leafA, leafA2}, {selfC, selfC2}}
+
+// lookAlikes of a chain: the certificates that share a key with one of its certificates.
+var lookAlikes = map[string][]int{"A": {rootA2, rootAx, interA2, leafA2}, "B": {rootB2}, "C": {selfC2}}
 
 var chainIDs = map[string][]int{"A": {leafA, interA, rootA}, "B": {leafB, rootB}, "C": {selfC}}
 var chainNames = []string{"A", "B", "C"}
@@ -126,8 +141,26 @@ func newPKI() *pki {
 			p.certs[id] = ch.Certs[k].Cert
 		}
 	}
-	p.certs[rootU] = common.MakeCert(common.CertOpts{Subject: common.Name("root c03-U"), CA: true, PathLen: 1, NotBefore: nb}).Cert
+	rootUCert := common.MakeCert(common.CertOpts{Subject: common.Name("root c03-U"), CA: true, PathLen: 2, NotBefore: nb})
+	p.certs[rootU] = rootUCert.Cert
 	p.certs[selfV] = common.MakeCert(common.CertOpts{Subject: common.Name("leaf c03-V"), EKU: []x509.ExtKeyUsage{x509.ExtKeyUsageCodeSigning}, NotBefore: nb}).Cert
+	// the look-alikes: same subject and key as a chain certificate, another certificate
+	nb2 := time.Now().Add(-24 * time.Hour)
+	A, B, C := p.chains["A"], p.chains["B"], p.chains["C"]
+	code := []x509.ExtKeyUsage{x509.ExtKeyUsageCodeSigning}
+	p.certs[rootA2] = common.MakeCert(common.CertOpts{Subject: A.Root().Cert.Subject, CA: true, PathLen: 1, Key: A.Root().Key, NotBefore: nb2}).Cert
+	p.certs[rootAx] = common.MakeCert(common.CertOpts{Subject: A.Root().Cert.Subject, CA: true, PathLen: 1, Key: A.Root().Key, Parent: rootUCert, NotBefore: nb2}).Cert
+	p.certs[rootB2] = common.MakeCert(common.CertOpts{Subject: B.Root().Cert.Subject, CA: true, PathLen: 0, Key: B.Root().Key, NotBefore: nb2}).Cert
+	p.certs[interA2] = common.MakeCert(common.CertOpts{Subject: A.Certs[1].Cert.Subject, CA: true, PathLen: 0, Key: A.Certs[1].Key, Parent: A.Root(), NotBefore: nb2}).Cert
+	p.certs[leafA2] = common.MakeCert(common.CertOpts{Subject: A.Leaf().Cert.Subject, EKU: code, Key: A.Leaf().Key, Parent: A.Certs[1], NotBefore: nb2}).Cert
+	p.certs[selfC2] = common.MakeCert(common.CertOpts{Subject: C.Leaf().Cert.Subject, EKU: code, Key: C.Leaf().Key, NotBefore: nb2}).Cert
+	for _, g := range sameKeyGroups {
+		for _, id := range g[1:] {
+			if p.certs[id].Equal(p.certs[g[0]]) || !p.certs[id].PublicKey.(interface{ Equal(crypto.PublicKey) bool }).Equal(p.certs[g[0]].PublicKey) {
+				panic("c03: look-alike certificates must share the key and differ as certificates")
+			}
+		}
+	}
 	return p
 }
 
@@ -156,8 +189,9 @@ func (p *pki) env(chain, scheme, format string, plugin bool) []byte {
 }
 
 // what the real x509TrustStore accepts: CA or self-signed certificates; root CAs only under tsa
-var caOrSelfSigned = map[int]bool{interA: true, rootA: true, rootB: true, selfC: true, rootU: true, selfV: true}
-var rootCA = map[int]bool{rootA: true, rootB: true, rootU: true}
+var caOrSelfSigned = map[int]bool{interA: true, rootA: true, rootB: true, selfC: true, rootU: true, selfV: true,
+	rootA2: true, rootAx: true, rootB2: true, interA2: true, selfC2: true}
+var rootCA = map[int]bool{rootA: true, rootB: true, rootU: true, rootA2: true, rootB2: true}
 
 // ---- abstract cases ------------------------------------------------------------------------
 
@@ -199,6 +233,7 @@ type acase struct {
 	mode                           string
 	prelude                        []string
 	plugin                         string   // plugin variant of the verification under test
+	globalAt                       int      // index of the global blob statement (-1: none)
 	names                          []string // statement names (the same in the OCI and the blob document)
 	naming                         string
 }
@@ -366,6 +401,10 @@ func genCase(r *rand.Rand) acase {
 	storeNames = storeNameSets[r.Intn(len(storeNameSets))]
 	scopePool = scopePools[r.Intn(len(scopePools))]
 	nst := 1 + r.Intn(3)
+	a.globalAt = -1
+	if r.Intn(3) != 0 {
+		a.globalAt = r.Intn(nst)
+	}
 	a.naming = pick(r, namingModes)
 	a.names = append([]string{}, nameFamilies[a.naming]...)
 	r.Shuffle(len(a.names), func(i, j int) { a.names[i], a.names[j] = a.names[j], a.names[i] })
@@ -428,11 +467,16 @@ func genCase(r *rand.Rand) acase {
 			bapp = 1 + r.Intn(nst-1) // not the first: a looser match would find an earlier one
 		}
 		a.repo = a.name(bapp)
-		if r.Intn(10) == 0 {
-			bapp, a.repo = -1, a.name(-1) // no such statement
-			if nst < len(a.names) {
-				a.repo = a.names[len(a.names)-1] // ... but one whose name is loosely equal to an existing one's
+		switch x := r.Intn(20); {
+		case x < 4:
+			bapp, a.repo = -1, a.name(-1) // no such statement: must NOT fall back to the global statement
+			if nst < len(a.names) && x < 2 {
+				a.repo = a.names[len(a.names)-1] // ... one whose name is loosely equal to an existing one's
 			}
+		case x < 7:
+			bapp, a.repo = a.globalAt, "" // no name: the global statement, if there is one
+		case x < 8:
+			bapp, a.repo = -1, " " // a blank name is neither a statement's name nor "no name"
 		}
 		a.app, app = bapp, -1
 	}
@@ -457,6 +501,10 @@ func genCase(r *rand.Rand) acase {
 	for k := range a.stmts {
 		name := a.name(k)
 		st := Stmt{Scopes: []string{name}, Level: pick(r, []string{"strict", "permissive", "audit"}), AuthLog: r.Intn(4) == 0}
+		if k == a.globalAt {
+			// encoding of "global": the statement also answers to the empty name
+			st.Scopes = append(st.Scopes, "")
+		}
 		switch {
 		case k == bapp:
 			st.TrustStores = steer(genList(r, want, 0.5, a.malformed), true)
@@ -499,6 +547,11 @@ func genCase(r *rand.Rand) acase {
 		if !inChain[c] {
 			unrelated = append(unrelated, c)
 		}
+	}
+	// "unrelated" means: not a certificate of the chain. The ones that carry a key of the chain
+	// (re-issued root, cross-certificate, ...) are the interesting ones: they weigh more
+	for k := 0; k < 3; k++ {
+		unrelated = append(unrelated, lookAlikes[a.chain]...)
 	}
 	// in the directory back end a store holding a non-CA, non-self-signed certificate does not
 	// load: keep such placements to a minority there
@@ -738,7 +791,7 @@ func history(r *rand.Rand, a acase) []call {
 			if a.testKind == "oci" {
 				c.repo = otherOf(r, append(append([]string{}, scopePool...), noneRepo), a.repo)
 			} else {
-				c.repo = otherOf(r, append(append([]string{}, a.names...), a.name(-1)), a.repo)
+				c.repo = otherOf(r, append(append([]string{}, a.names...), a.name(-1), "", " "), a.repo)
 			}
 		case "otherDoc", "otherDocOtherScheme":
 			if k == "otherDocOtherScheme" {
@@ -1013,6 +1066,7 @@ func newScenario(c *common.Ctx, p *pki, a acase, seq int, extra map[string][]pla
 		for k, st := range a.blobStmts {
 			bdoc.TrustPolicies = append(bdoc.TrustPolicies, trustpolicy.BlobTrustPolicy{
 				Name:                  st.Scopes[0],
+				GlobalPolicy:          k == a.globalAt,
 				SignatureVerification: trustpolicy.SignatureVerification{VerificationLevel: st.Level, Override: override(st), VerifyTimestamp: trustpolicy.TimestampOption(a.blobVerifyTimestamp[k])},
 				TrustStores:           lists(st.TrustStores),
 				TrustedIdentities:     []string{"*"},
@@ -1072,7 +1126,7 @@ func (sc *scenario) close() {
 // verify performs one verification of the history on the scenario's verifier.
 func (sc *scenario) verify(cl call) (Input, Obs) {
 	a := sc.a
-	in := Input{Scheme: cl.scheme, Chain: chainIDs[cl.chain], Repo: cl.repo, RefOk: true, Backend: a.backend, Format: a.format,
+	in := Input{Scheme: cl.scheme, Chain: chainIDs[cl.chain], Repo: cl.repo, RefOk: true, SameKey: sameKeyGroups, Backend: a.backend, Format: a.format,
 		Kind: cl.kind, World: sc.worlds[cl.world], History: append([]string{}, sc.history...),
 		Plugin: cl.plugin, IdentityOk: !strings.HasSuffix(cl.plugin, "-failure")}
 	artifactRef := ""
@@ -1260,14 +1314,14 @@ func runStress(c *common.Ctx, p *pki) {
 				}
 				st := Stmt{Scopes: []string{"reg.example/load"}, TrustStores: []string{pl.ty + ":" + pl.name}, Level: "permissive"}
 				work[g] = append(work[g], stressCall{load: true, ty: pl.ty, name: pl.name, in: Input{Scheme: scheme, Chain: pl.certs,
-					Statements: []Stmt{st}, Repo: "reg.example/load", RefOk: true, World: world, IdentityOk: true, Plugin: "none", Backend: "dir", Format: "jws",
+					Statements: []Stmt{st}, Repo: "reg.example/load", RefOk: true, SameKey: sameKeyGroups, World: world, IdentityOk: true, Plugin: "none", Backend: "dir", Format: "jws",
 					Kind: "load", History: note}})
 			}
 			continue
 		}
 		for k := 0; k < rounds; k++ {
 			sc := stressCall{scheme: pick(r, []string{"x509", "signingAuthority"}), chain: pick(r, chainNames), repo: stmts[r.Intn(len(stmts))].Scopes[0]}
-			sc.in = Input{Scheme: sc.scheme, Chain: chainIDs[sc.chain], Statements: stmts, Repo: sc.repo, RefOk: true, World: world, IdentityOk: true,
+			sc.in = Input{Scheme: sc.scheme, Chain: chainIDs[sc.chain], Statements: stmts, Repo: sc.repo, RefOk: true, SameKey: sameKeyGroups, World: world, IdentityOk: true,
 				Plugin: "none", Backend: "dir", Format: "jws", Kind: "oci", History: note}
 			work[g] = append(work[g], sc)
 		}
@@ -1357,6 +1411,7 @@ func Run(c *common.Ctx) error {
 		c.Count(fmt.Sprintf("scenario: statements=%d", len(a.stmts)))
 		c.Count("scenario: backend=" + a.backend)
 		c.Count("scenario: statement-names=" + a.naming)
+		c.Count(fmt.Sprintf("scenario: global blob statement=%v", a.globalAt >= 0))
 		c.Count("scenario: scopes=" + scopePool[0] + ",..")
 		c.Count("scenario: store-names=" + storeNames[1] + ",..")
 		if a.malformed {
@@ -1379,6 +1434,9 @@ func Run(c *common.Ctx) error {
 			c.Count("result=" + o.Result)
 			c.Count("kind=" + cl.kind)
 			c.Count("plugin=" + cl.plugin)
+			if cl.kind == "blob" {
+				c.Count(fmt.Sprintf("blob: policy name %q-like/result=%s", map[bool]string{true: "(empty)", false: "named"}[cl.repo == ""], o.Result))
+			}
 			if cl.kind == "oci" {
 				c.Count("reference=path" + cl.refForm + "@digest/ok=" + fmt.Sprint(in.RefOk))
 			}
